@@ -43,6 +43,8 @@ def case_strategy(draw):
         "thr": draw(gen.threshold(metric)),
         # the matcher object has matched another pair of the same shape before (None: fresh matcher)
         "reuse": draw(st.sampled_from([None, None, "mirrored", "rolled_pred", "exchanged"])),
+        # instance labels need not be 1..n: reference labels l -> a*l + b, prediction labels l -> c*l + d
+        "spread": draw(st.sampled_from([None, None, [2, 0, 1, 0], [1, 3, 3, 1], [3, 1, 2, 5]])),
     }
 
 
@@ -84,8 +86,12 @@ def searches(tier):
 def check(case, stats):
     from panoptica.utils.processing_pair import UnmatchedInstancePair
 
-    pred = gen.with_layout(np.array(case["pred"]).astype(case["dtype"]), case.get("layout", "C"))
-    ref = gen.with_layout(np.array(case["ref"]).astype(case["dtype"]), case.get("layout", "C"))
+    pa, ra = np.array(case["pred"]), np.array(case["ref"])
+    if case.get("spread"):
+        a, b, c, d = case["spread"]
+        ra, pa = np.where(ra != 0, a * ra + b, 0), np.where(pa != 0, c * pa + d, 0)
+    pred = gen.with_layout(pa.astype(case["dtype"]), case.get("layout", "C"))
+    ref = gen.with_layout(ra.astype(case["dtype"]), case.get("layout", "C"))
     if not pred.any() or not ref.any():
         stats.count("skipped:empty_side")
         return
